@@ -203,6 +203,9 @@ func init() {
 		I[p+"MustUnmarshal"] = unmarshal(true)
 		I[p+"Unmarshal"] = unmarshal(false)
 	}
+	// the concrete codec behind a module's package-level ModuleCdc
+	I["(*github.com/cosmos/cosmos-sdk/codec.ProtoCodec).MustMarshal"] = marshal
+	I["(*github.com/cosmos/cosmos-sdk/codec.ProtoCodec).MustUnmarshal"] = unmarshal(true)
 	I["github.com/cosmos/cosmos-sdk/types.Uint64ToBigEndian"] = func(fc *FCtx, st *State, e *ast.CallExpr, r *Val, a []Val) []Val {
 		fc.u64be()
 		return []Val{{T: app("u64be", a[0].T), S: fc.U.BzSort(), GoT: fc.resT(e)}}
@@ -463,6 +466,15 @@ func init() {
 		st.assume(fmt.Sprintf("(and (= (bz_len %s) (bz_len %s)) (= (bz_cap %s) (bz_cap %s)) (not (= %s bz_nil)) (= (u64of %s) %s) (=> (= (bz_len %s) 8) (= %s (u64be %s))))", nb, b, nb, b, nb, nb, a[1].T, b, nb, a[1].T))
 		fc.assignOut(e.Args[0], Val{T: nb, S: a[0].S, GoT: a[0].GoT}, st)
 		return nil
+	}
+	I["(encoding/binary.littleEndian).Uint64"] = func(fc *FCtx, st *State, e *ast.CallExpr, r *Val, a []Val) []Val {
+		// the little-endian reading of the same bytes: a different (uninterpreted) function of them
+		b := fc.toBz(a[0])
+		fc.panicCheck(st, "LittleEndian.Uint64-short", fmt.Sprintf("(>= (bz_len %s) 8)", b), e.Pos())
+		fc.U.Fun("u64le_of", []*Sort{fc.U.BzSort()}, SInt)
+		v := Val{T: app("u64le_of", b), S: SInt, GoT: fc.resT(e)}
+		st.assume(fc.U.WF(v))
+		return []Val{v}
 	}
 	I["(encoding/binary.bigEndian).Uint64"] = func(fc *FCtx, st *State, e *ast.CallExpr, r *Val, a []Val) []Val {
 		fc.u64be()
